@@ -86,6 +86,15 @@ at the top-level directory.
 
 #define SUPERLU_FREE(addr) USER_FREE(addr)
 
+#ifdef SLU_VERIF_HOOKS
+/* Verification event hooks (off by default): kind 1 = zero pivot reported,
+   2 = ILU pivot replaced by fill tolerance, 3 = ILU MILU diagonal replaced */
+extern void slu_verif_event(int kind, int a, int b);
+#define SLU_VERIF_EVENT(k,a,b) slu_verif_event((k),(a),(b))
+#else
+#define SLU_VERIF_EVENT(k,a,b) ((void)0)
+#endif
+
 #define CHECK_MALLOC(where) {                 \
     extern int64_t superlu_malloc_total;        \
     printf("%s: malloc_total %lld Bytes\n",     \
